@@ -123,3 +123,5 @@ def features(case):
         yield f'basis={b}'
     if 'algo' in case:
         yield 'netlist-compared-with-algorithm-model'
+    if 'ledger' in case:
+        yield 'call-trace-validated-by-the-weight-ledger'
